@@ -128,9 +128,18 @@ impl SetSpec {
         crate::dynp::Cfg { partial: self.partial, skip_ws: self.skip_ws, longest_match: self.lm, grammar_order: self.grammar_order(), fancy: self.fancy }
     }
     pub fn to_json(&self) -> Value {
-        json!({"glr": self.glr, "table": self.table, "ps": self.ps, "pse": self.pse, "ms": self.ms, "lm": self.lm, "go": self.go,
+        let v = json!({"glr": self.glr, "table": self.table, "ps": self.ps, "pse": self.pse, "ms": self.ms, "lm": self.lm, "go": self.go,
                "partial": self.partial, "skip_ws": self.skip_ws, "builder": self.builder, "gen_table": self.gen_table,
-               "custom_lexer": self.custom_lexer, "loc_info": self.loc_info, "fancy": self.fancy, "force": self.force, "noactions": self.noactions, "algo_last": self.algo_last})
+               "custom_lexer": self.custom_lexer, "loc_info": self.loc_info, "fancy": self.fancy, "force": self.force});
+        // later additions appear only when set, so that the signatures of recorded cases (hashes of this JSON) stay valid
+        let mut v = v;
+        if self.noactions {
+            v["noactions"] = json!(true);
+        }
+        if self.algo_last {
+            v["algo_last"] = json!(true);
+        }
+        v
     }
     pub fn from_json(v: &Value) -> SetSpec {
         let b = |k: &str, d: bool| v.get(k).and_then(|x| x.as_bool()).unwrap_or(d);
